@@ -314,6 +314,9 @@ class DistributedNetwork(BaseManager):
         root, level = self._get_advertised_branch_values()
 
         await peer.connection.send_message(DistributedBranchLevel.Request(level))
+        # The values can change while the first message is being sent. The
+        # child already received that update, don't overwrite it with the old root
+        root, level = self._get_advertised_branch_values()
         if level != 0:
             await peer.connection.send_message(DistributedBranchRoot.Request(root))
 
